@@ -4,6 +4,7 @@ package llrp
 
 import (
 	"bytes"
+	"fmt"
 	"runtime"
 	"testing"
 	"time"
@@ -147,6 +148,50 @@ func TestVerifC11(t *testing.T) {
 		}
 	}
 	// allocation and time stay proportional to the input: a large valid report and large garbage
+	// lying counts: a valid encoding of every type in which one 16-bit position at a time claims 0xFFFF, cut shortly
+	// after — and short all-0xFF inputs. What the decoder allocates for such an input must stay a small multiple of
+	// the INPUT (the claimed count buys nothing): measured around the UnmarshalBinary call alone.
+	{
+		var m0, m1 runtime.MemStats
+		worst := map[string]uint64{}
+		measure := func(c *sContainer, in []byte) {
+			p := s.newGo(c)
+			data := append([]byte(nil), in...)
+			runtime.ReadMemStats(&m0)
+			_ = vunmarshal(p, data)
+			runtime.ReadMemStats(&m1)
+			a := m1.TotalAlloc - m0.TotalAlloc
+			if a > 48*uint64(len(in))+16<<10 && a > worst[c.key()] {
+				worst[c.key()] = a
+				o.line(fmt.Sprintf("resource-bound %s %d", c.key(), len(in)), fmt.Sprintf("balloon: %d bytes allocated for the %d-byte input x%s", a, len(in), vhex(in)))
+			}
+		}
+		for _, c := range s.all {
+			g := &vgen{s: s, r: rng, budget: 6}
+			v := g.value(c, 2)
+			p := s.newGo(c)
+			s.toGo(c, v, p.Elem())
+			enc, res := vmarshal(p)
+			if res != "ok" {
+				continue
+			}
+			for pos := 0; pos+2 <= len(enc) && pos < 64; pos++ {
+				q := append([]byte(nil), enc...)
+				q[pos], q[pos+1] = 0xff, 0xff
+				cut := pos + 2 + rng.intn(6)
+				if cut > len(q) {
+					cut = len(q)
+				}
+				measure(c, q[:cut])
+			}
+			for n := 2; n <= 12; n += 2 {
+				measure(c, bytes.Repeat([]byte{0xff}, n))
+			}
+			if len(worst) == 0 || worst[c.key()] == 0 {
+				o.line(fmt.Sprintf("resource-bound %s lying-counts", c.key()), "bounded")
+			}
+		}
+	}
 	var ms0, ms1 runtime.MemStats
 	for _, name := range []string{"ROAccessReport", "GetReaderCapabilitiesResponse", "AddROSpec", "CustomMessage"} {
 		c := s.msgs[name]
